@@ -39,6 +39,7 @@ class Stats:
         self.exhaustive = None
         self.skipped_budget = 0
         self.out_of_domain = 0
+        self.cases_seen = 0
 
     def merge(self, other):
         self.evaluations += other.evaluations
@@ -88,13 +89,8 @@ def abbreviate(case, limit=1200):
     return cut(json.loads(text))
 
 
-def process_case(prop, case, stats, open_known):
-    """run one case; returns the list of unknown discrepancies"""
-    try:
-        discs = prop.run_case(case)
-    except OutOfDomain:
-        stats.out_of_domain += 1
-        return []
+def account(prop, case, stats):
+    """count one executed case (evaluations, distinct / non-trivial sets, labels, samples)"""
     h = harness.case_hash(case)
     nontrivial, labels = prop.classify(case)
     units = getattr(prop, "sub_units", None)
@@ -118,9 +114,14 @@ def process_case(prop, case, stats, open_known):
     if notes:
         stats.labels.update(notes)
         notes.clear()
-    if len(stats.samples) < MAX_SAMPLES and (nontrivial or stats.evaluations > 20):
-        if stats.evaluations % 7 == 1 or len(stats.samples) == 0:
+    stats.cases_seen += 1
+    if len(stats.samples) < MAX_SAMPLES and (nontrivial or stats.cases_seen > 20):
+        if stats.cases_seen % 7 == 1 or len(stats.samples) == 0:
             stats.samples.append(abbreviate(case))
+
+
+def judge(prop, case, discs, stats, open_known):
+    """filter known findings, bucket the rest; returns the unknown discrepancies"""
     unknown = []
     for d in discs:
         kid = known.match(prop.ID, case, d, open_known)
@@ -135,6 +136,45 @@ def process_case(prop, case, stats, open_known):
             if b not in stats.failures or size < stats.failures[b][0]:
                 stats.failures[b] = (size, case, unknown)
     return unknown
+
+
+def process_case(prop, case, stats, open_known):
+    """run one case; returns the list of unknown discrepancies"""
+    try:
+        discs = prop.run_case(case)
+    except OutOfDomain:
+        stats.out_of_domain += 1
+        return []
+    account(prop, case, stats)
+    return judge(prop, case, discs, stats, open_known)
+
+
+def run_machine_stage(prop, stage, seed_value, stats, open_known, deadline, examples):
+    """Hypothesis stateful mode: the machine applies operations and reports every step through
+    `on_history`; a failing step raises inside the machine so that the library shrinks the rule
+    sequence (each shrink attempt is reported too, the smallest failing history is kept)"""
+    from hypothesis import HealthCheck, Phase, seed, settings
+    from hypothesis.stateful import run_state_machine_as_test
+
+    def on_history(case, discs, final):
+        if time.monotonic() > deadline:
+            return []
+        if final:
+            if case["ops"]:
+                account(prop, case, stats)
+            return []
+        return judge(prop, case, discs, stats, open_known)
+
+    machine = stage["machine"](on_history)
+    cfg = settings(
+        max_examples=examples, stateful_step_count=stage.get("steps", 12), database=None, deadline=None,
+        derandomize=False, report_multiple_bugs=False, suppress_health_check=list(HealthCheck),
+        phases=[Phase.generate, Phase.shrink], print_blob=False,
+    )
+    try:
+        run_state_machine_as_test(seed(seed_value)(machine), settings=cfg)
+    except AssertionError:
+        pass  # the verdict is in stats.failures (smallest failing history)
 
 
 def hyp_settings(examples, shrink=False):
@@ -216,6 +256,10 @@ def run_plan(pid, tier, seed_value, shard=(0, 1), budget_s=None):
             if stats.exhaustive is None:
                 stats.exhaustive = False
             stats.exhaustive = False
+        elif stage["kind"] == "machine":
+            examples = max(1, stage["examples"] // count)
+            run_machine_stage(prop, stage, seed_value * 1000 + index, stats, open_known, deadline, examples)
+            stats.exhaustive = False
         else:
             cases = stage["cases"]() if callable(stage["cases"]) else stage["cases"]
             complete = True
@@ -241,6 +285,10 @@ def run_plan(pid, tier, seed_value, shard=(0, 1), budget_s=None):
 
 def _worker(args):
     pid, tier, seed_value, shard, budget_s = args
+    # a private user cache dir per worker (set before ceos_alos2 is first imported)
+    home = pathlib.Path(os.environ["XDG_CACHE_HOME"]) / f"worker-{shard[0]}"
+    home.mkdir(parents=True, exist_ok=True)
+    os.environ["XDG_CACHE_HOME"] = str(home)
     try:
         return ("ok", run_plan(pid, tier, seed_value, shard, budget_s))
     except BaseException as e:  # noqa: BLE001
